@@ -196,7 +196,26 @@ INVARIANT EmitCase
 """
 
 
+SPEC_MUTANTS = {
+    "spectrometer": [("mbp-does-not-clear-spectral", '(CASE p \\in {"w2p", "mbp"} -> {"spectral"} [] p = "name" -> {"kwargs"})', '(CASE p \\in {"w2p"} -> {"spectral"} [] p = "mbp" -> {} [] p = "name" -> {"kwargs"})'),
+                     ("name-does-not-clear-kwargs", '(CASE p \\in {"w2p", "mbp"} -> {"spectral"} [] p = "name" -> {"kwargs"})', '(CASE p \\in {"w2p", "mbp"} -> {"spectral"} [] p = "name" -> {})'),
+                     ("getter-fills-from-initial-parameters", 'cache[c] = <<>> THEN <<Proj(c, par)>> ELSE cache[c]]', 'cache[c] = <<>> THEN <<Proj(c, hist[1].par)>> ELSE cache[c]]')],
+    "czerny": [("optics-do-not-rebuild-w2p", '"acc"} -> {"w2p", "spectral"}', '"acc"} -> {"spectral"}'),
+               ("optics-do-not-clear-spectral", '"acc"} -> {"w2p", "spectral"}', '"acc"} -> {"w2p"}'),
+               ("invalid-value-accepted", "    /\\ outcome' = \"ValueError\"\n    /\\ UNCHANGED <<par, cache>>", "    /\\ outcome' = \"ValueError\"\n    /\\ par' = [par EXCEPT ![p] = v] /\\ UNCHANGED cache")],
+    "polychromator": [("filters-do-not-clear-classes", 'p = "filters" -> {"spectral", "classes", "kwargs"}', 'p = "filters" -> {"spectral", "kwargs"}'),
+                      ("filters-do-not-clear-kwargs", 'p = "filters" -> {"spectral", "classes", "kwargs"}', 'p = "filters" -> {"spectral", "classes"}'),
+                      ("mbw-does-not-clear-spectral", '[] p = "mbw" -> {"spectral"}', '[] p = "mbw" -> {}')],
+}
+
+
 def run(v):
+    if v.tier == "thorough":
+        from . import specmut
+        v.notes["spec_mutants"] = {}
+        for kind in KINDS:
+            cfg = CFG.format(kind=kind, maxhist=3).replace("ACTION_CONSTRAINT Emit\n", "")
+            v.notes["spec_mutants"][kind] = specmut.audit("Instrument", cfg, SPEC_MUTANTS[kind])
     depth = {"quick": {"spectrometer": 4, "czerny": 3, "polychromator": 4},
              "thorough": {"spectrometer": 6, "czerny": 4, "polychromator": 6}}[v.tier]
     tables = None
